@@ -104,6 +104,7 @@ def units(tier, seed):
                     us.append({"kind": "mvn", "d": d, "pen": pen, "vars": [v]})
             else:
                 us.append({"kind": "mvn", "d": d, "pen": pen, "vars": _vars(tier) + ["batch"]})
+    us.append({"kind": "mvn-scaled-pen", "dims": [4, 6], "scales": [2.0**-17, 2.0**-10, 1.0, 2.0**10] if tier == "quick" else [2.0**k for k in (-20, -17, -13, -10, -7, -3, 0, 3, 7, 10, 13)]})  # powers of two: c * K stays exactly low-rank in float32
     for d in HIGH_DIMS:
         us.append({"kind": "mvn-highdim", "d": d, "vars": [0.2, 1.0, 100.0] if tier == "quick" else [0.01, 0.2, 1.0, 7.0, 100.0]})
     for d in _dims(tier):
@@ -212,6 +213,11 @@ def run_asig(unit, res):
         cmp("fldj", b.forward_log_det_jacobian(x, event_ndims=0), lf, 16 * eps * (1 + np.abs(lf)), xr)
         li = np.log(ref.asig_dinverse(yr))
         cmp("ildj", b.inverse_log_det_jacobian(y, event_ndims=0), li, 16 * eps * (1 + np.abs(li)) + 6 * eps * cond_y, yr)
+        # far tails (|x| up to 1e6, where forward(x) rounds to +-1 and only the Jacobian is informative)
+        far64 = f64([-1e6, -1e5, -3e4, -10001.0, 10001.0, 3e4, 1e5, 1e6])
+        xfar = jnp.asarray(far64, dtype=dt)
+        lfar = np.log(ref.asig_dforward(f64(xfar)))
+        cmp("fldj-far-tail", b.forward_log_det_jacobian(xfar, event_ndims=0), lfar, 16 * eps * (1 + np.abs(lfar)), f64(xfar))
         # ... against autodiff of the REAL forward / inverse. The derivative of
         # x/sqrt(1+x^2) is a difference of terms (1+x^2) times larger than itself.
         gf = f64(jax.vmap(jax.grad(lambda t: b.forward(t)))(x))
@@ -1004,6 +1010,56 @@ def run_mvn_sample(unit, res):
                         first = False
 
 
+def run_mvn_scaled_pen(unit, res):
+    """from_penalty / the precision constructor with a SUPPLIED rank on penalties at unusual scales
+    (c * K, c from 1e-5 to 1e3): the supplied rank decides which eigenvalues enter the log-pseudo-
+    determinant, so the density must agree with the float64 reference at every scale - the absolute
+    eigenvalue tolerance (1e-6) plays no role when the rank is given."""
+    import jax
+    import jax.numpy as jnp
+
+    from liesel.distributions.mvn_degen import MultivariateNormalDegenerate as M
+
+    rec = Recorder(res)
+    for d in unit["dims"]:
+        pats = [np.zeros(d), np.resize(np.array([-1.0, 0.0, 2.0]), d), np.resize(np.array([0.5, -0.25, 1.5, 0.0, -2.0]), d)]
+        loc = np.resize(np.array(LOCVEC), d)
+        for penname in ("RW1", "RW2", "ZB2", "SPD"):
+            K = ref.penalty(penname, d)
+            if K is None:
+                continue
+            for c in unit["scales"]:
+                for v in (0.5, 2.0):
+                    pen32 = f32(c * K)
+                    P = f64(pen32) / float(np.float32(v))
+                    sp = ref.spectral(f64(pen32))
+                    rank = sp["rank"]
+                    want = np.array([ref.mvn_logpdf(f64(f32(x)), f64(f32(loc)), P) for x in pats])
+                    for cn, mk in (
+                        ("pen+rank", lambda: M.from_penalty(loc=jnp.asarray(f32(loc)), var=jnp.float32(v), pen=jnp.asarray(pen32), rank=rank)),
+                        ("pen+rank+lpdet", lambda: M.from_penalty(loc=jnp.asarray(f32(loc)), var=jnp.float32(v), pen=jnp.asarray(pen32), rank=rank, log_pdet=jnp.float32(sp["log_pdet"]))),
+                        ("prec+rank", lambda: M(loc=jnp.asarray(f32(loc)), prec=jnp.asarray(f32(P)), rank=rank)),
+                    ):
+                        case = {"d": d, "pen": penname, "scale": c, "var": v, "ctor": cn, "rank": rank}
+                        for mode in ("eager", "jit"):
+                            fn = (lambda x: mk().log_prob(x))
+                            if mode == "jit":
+                                fn = jax.jit(fn)
+                            ok, got = call(rec, "mvn-logprob", f"scaled-pen-{cn}-{mode}", case, lambda: f64(fn(jnp.asarray(f32(np.stack(pats))))))
+                            res.transitions += 1
+                            res.executions += 1
+                            if not ok:
+                                continue
+                            res.states += len(pats)
+                            res.outcome("scaled-pen", cn, penname, c, mode)
+                            tol = 4 * MVN_RTOL * (1 + np.abs(want) + rank * abs(np.log(c)))
+                            if got.shape != want.shape or not np.all(np.abs(got - want) <= tol):
+                                i = int(np.argmax(np.abs(got - want))) if got.shape == want.shape else 0
+                                rec.fail("mvn-logprob", f"scaled-penalty-with-given-rank:{cn}", case,
+                                         f"[{cn}, {mode}] d={d} pen={c}*{penname} (rank {rank} supplied) var={v}: log_prob {got.tolist()} != reference {want.tolist()} (first difference {got[i] - want[i] if got.shape == want.shape else 'shape'})")
+    res.note(["scaled-pen", unit["dims"], unit["scales"]])
+
+
 def run_unit(unit):
     core.assert_repo()
     res = core.UnitResult(unit)
@@ -1018,6 +1074,8 @@ def run_unit(unit):
         run_mvn_highdim(unit, res)
     elif kind == "mvn-sample":
         run_mvn_sample(unit, res)
+    elif kind == "mvn-scaled-pen":
+        run_mvn_scaled_pen(unit, res)
     else:
         raise ValueError(kind)
     return res
